@@ -343,20 +343,25 @@ def grading_case(draw):
         else:
             c.update(count=max(n, 2), start_size=gp_first_c2c(length * lr, max(n, 2), r))
         chops.append(c)
-    return {"L": length, "chops": chops}
+    return {"L": length, "chops": chops, "peek": [draw(st.booleans()) for _ in chops]}
 
 
 def check_grading(case, ctx: Ctx) -> None:
     L = case["L"]
     g = Grading(L)
     expect = []
-    for c in case["chops"]:
+    for i, c in enumerate(case["chops"]):
         try:
             g.add_chop(Chop(**c))
         except Exception as ex:
             raise Violation("section-rejected", f"valid section rejected: {type(ex).__name__}: {ex}", chop=c, L=L) from None
         n, t = Chop(**{k: v for k, v in c.items()}).calculate(L * c["length_ratio"])
         expect.append([c["length_ratio"], int(n), float(t)])
+        if case.get("peek", [False] * 8)[i]:
+            # reading the reversed grading while it is being built must not freeze it
+            part = g.inverted
+            if part.count != g.count or len(part.specification) != len(g.specification):
+                raise Violation("inverted-stale", f"after {i + 1} sections inverted has {part.specification}", L=L, chops=case["chops"])
     spec = [list(map(float, s)) for s in g.specification]
     facts = {"L": L, "chops": case["chops"], "spec": spec}
     if len(spec) != len(expect):
